@@ -19,14 +19,17 @@ type World struct {
 	files   map[int]*memfile.File
 	stores  map[int]*gkvlite.Store
 	sfile   map[int]int
+	ro      map[int]bool
 	cfg     int // callback configuration bits for stores opened from now on
 	rc      *refCounter
+	churn   []*gkvlite.Store
+	dropped int
 	dead    bool // a hang happened: the process state is no longer trustworthy
 	opTimeo time.Duration
 }
 
 func newWorld() *World {
-	return &World{files: map[int]*memfile.File{}, stores: map[int]*gkvlite.Store{}, sfile: map[int]int{},
+	return &World{files: map[int]*memfile.File{}, stores: map[int]*gkvlite.Store{}, sfile: map[int]int{}, ro: map[int]bool{},
 		opTimeo: 10 * time.Second}
 }
 
@@ -258,7 +261,16 @@ func (w *World) exec(t []string) string {
 		return "ok"
 	case "cfg":
 		w.cfg = atoi(t[1])
+		if w.cfg&cbRefs != 0 {
+			w.rc = newRefCounter()
+		}
 		return "ok"
+	case "failop":
+		return w.exec(t[1:])
+	case "refcheck":
+		return w.refCheck()
+	case "refbalance":
+		return w.refBalance()
 	case "mem":
 		st, err := gkvlite.NewStoreEx(nil, w.callbacks())
 		if err != nil {
@@ -290,6 +302,9 @@ func (w *World) exec(t []string) string {
 		}
 		return "nostore"
 	case "drop": // abandon a store without closing it (a crashed process)
+		if _, ok := w.stores[atoi(t[1])]; ok {
+			w.dropped++
+		}
 		delete(w.stores, atoi(t[1]))
 		return "ok"
 	case "setcoll":
@@ -483,6 +498,62 @@ func (w *World) exec(t []string) string {
 			}
 		}
 		return "ok"
+	case "heapcheck":
+		return w.heapCheck()
+	case "churn":
+		n := atoi(t[1])
+		st, _ := gkvlite.NewStore(nil)
+		c := st.SetCollection("churn", nil)
+		for i := 0; i < n; i++ {
+			c.SetItem(&gkvlite.Item{Key: []byte(fmt.Sprintf("c%05d", i)), Val: []byte("CHURN-CHURN"), Priority: int32(i * 7919 % 1000)})
+		}
+		for i := 0; i < n; i += 2 {
+			c.Delete([]byte(fmt.Sprintf("c%05d", i)))
+		}
+		w.churn = append(w.churn, st) // keep the churn store open: its nodes are live now
+		return "ok"
+	case "nvisit":
+		n, _ := unhx(t[2])
+		_, c, e := w.coll(atoi(t[1]), n)
+		if e != "" {
+			return e
+		}
+		tgt, _ := unhx(t[4])
+		wv := t[5] == "1"
+		pos := atoi(t[6])
+		nested := t[8:]
+		nobs := "none"
+		var out []string
+		cnt := 0
+		v := func(i *gkvlite.Item, depth uint64) bool {
+			s := hx(i.Key) + ":" + strconv.Itoa(int(i.Priority)) + ":" + strconv.FormatUint(depth, 10)
+			if wv {
+				s += ":" + hx(i.Val)
+			}
+			out = append(out, s)
+			if cnt == pos {
+				nobs = w.exec(nested)
+			}
+			cnt++
+			return true
+		}
+		var err error
+		if t[3] == "asc" {
+			err = c.VisitItemsAscendEx(tgt, wv, v)
+		} else {
+			err = c.VisitItemsDescendEx(tgt, wv, v)
+		}
+		if err != nil {
+			return errClass(err)
+		}
+		return strings.Join(out, ",") + "|" + nobs
+	case "opendump":
+		mf := w.files[atoi(t[1])]
+		var img []byte
+		if mf != nil {
+			img = mf.Bytes()
+		}
+		return openDigest(w, img)
 	case "evict":
 		n, _ := unhx(t[2])
 		_, c, e := w.coll(atoi(t[1]), n)
@@ -516,6 +587,7 @@ func (w *World) exec(t []string) string {
 			return "nostore"
 		}
 		w.stores[atoi(t[2])] = st.Snapshot()
+		w.ro[atoi(t[2])] = true
 		w.sfile[atoi(t[2])] = w.sfile[atoi(t[1])]
 		return "ok"
 	case "revert":
@@ -582,7 +654,7 @@ func (w *World) exec(t []string) string {
 		if e != "" {
 			return e
 		}
-		return shapeOf(c)
+		return shapeOf(w.stores[atoi(t[1])], c)
 	case "image":
 		mf := w.files[atoi(t[1])]
 		if mf == nil {
@@ -629,12 +701,8 @@ func (w *World) exec(t []string) string {
 		if mf == nil {
 			return "nofile"
 		}
-		fired := mf.Fired
 		mf.Disarm()
-		if fired {
-			return "fired"
-		}
-		return "idle"
+		return "ok"
 	}
 	return "bad-op"
 }
@@ -648,13 +716,14 @@ func fnv(b []byte) uint64 {
 	return h
 }
 
-func dumpColl(c *gkvlite.Collection, name string) (string, error) {
+func dumpColl(st *gkvlite.Store, c *gkvlite.Collection, name string) (string, error) {
 	var items []string
 	min, err := c.MinItem(false)
 	if err != nil {
 		return "", err
 	}
 	if min != nil {
+		defer st.ItemDecRef(c, min) // the caller owns the reference MinItem took
 		err = c.VisitItemsAscend(min.Key, true, func(i *gkvlite.Item) bool {
 			items = append(items, showItem(i, true))
 			return true
@@ -675,7 +744,7 @@ func dumpStore(st *gkvlite.Store) string {
 	sort.Strings(names)
 	var out []string
 	for _, n := range names {
-		s, err := dumpColl(st.GetCollection(n), n)
+		s, err := dumpColl(st, st.GetCollection(n), n)
 		if err != nil {
 			return errClass(err)
 		}
